@@ -120,6 +120,15 @@ CLAIMED['C15'] = dict(
          'object identity after every step.',
     note='Coq kernel; no axioms; the heap model carries integer attributes (sysex data, text, keys are exercised on the implementation only); invalid values are C03\'s subject.',
     technique='Coq proof (heap frame lemmas, induction over assignment sequences) + model/implementation correspondence on object histories', design='5/C15')
+CLAIMED['C14'] = dict(
+    text='Theorems over a character-level model of msg2str / str2msg / _parse_time / _parse_data / parse_string / parse_string_stream: from_str(str(m)) = m for EVERY '
+         'valid message (sysex of any length) and every integer time (int(str(z)) = z comes from the standard library\'s decimal conversions) or float token; '
+         'from_dict(m.dict()) and eval(repr(m)) denote the constructor call with the message\'s own values, which returns m; parse_string on ANY ASCII text returns a valid '
+         'message or raises ValueError, nothing else; the stream parser skips blank and comment lines, numbers lines correctly and carries on after an error. '
+         'str()/repr() text is compared character by character with the model, malformed lines through the model\'s int/float grammar.',
+    note='Coq kernel; no axioms; floats are carried as repr tokens with the premise that repr() of a finite float is float syntax and never an int literal (CPython); '
+         'ASCII only (Unicode digits are outside the model); repr/eval of meta messages, tracks and files are checked on the implementation (Python\'s eval is not modelled).',
+    technique='Coq proof (decimal round trip, split/join lemmas, case analysis over all attributes) + character-exact model/implementation correspondence', design='5/C14')
 NOT_YET = {}
 ALL = ['C%02d' % i for i in range(1, 21)]
 
